@@ -36,6 +36,7 @@ def RunFile.key (f : RunFile) : Key := ⟨f.dag, f.stamp, f.req8, f.comp⟩
 structure Store where
   files   : List RunFile := []
   writers : List (Nat × Key) := []     -- recording process k ↦ the file it has open
+deriving DecidableEq
 
 /-- order of file names inside one DAG directory -/
 def nameLt (a b : RunFile) : Bool :=
